@@ -204,6 +204,8 @@ def frame(data: bytes) -> t.Tuple[t.List[t.Tuple[int, int]], int]:
             _c, _k, _n, length, hl = read_header(data, p, False)
         except Incomplete:
             break
+        except BerError:
+            break  # indefinite / reserved length octet: no further unit can be framed
         if p + hl + length > n:
             break
         units.append((p, p + hl + length))
